@@ -61,6 +61,8 @@ def gen_program(rng):
                 stmts.append("RESTORE %d" % rng.choice(all_lines))
             elif r < 0.92:
                 stmts.append("FOR K=1 TO 2:READ X:PRINT X;:NEXT")
+            elif r < 0.96:
+                stmts.append("CLEAR")              # rewinds the pointer like RUN does (and forgets every variable)
             else:
                 stmts.append("I%%=%d" % rng.randint(0, 3))
         lines[cl] = ":".join(stmts)
